@@ -45,6 +45,14 @@ Theorem C04_free_excludes_holders : forall s u s', Inv.Inv s -> Mach.step s u AF
   forall t, Mach.refs (Mach.getth s t) = 0%nat.
 Proof. exact free_excludes_holders. Qed.
 
+(* multi-step: while a thread holds a reference and is itself not running, no successful step of any other thread
+   writes, reallocates or frees the buffer, and the buffer stays live — so what it reads through its handle is what was
+   there when it last read or wrote (the frame that makes the sequential theorems C01-C03 apply to each thread) *)
+Theorem C04_no_interference_while_held : forall t sched s s',
+  Inv.Inv s -> (Mach.refs (Mach.getth s t) > 0)%nat -> Forall (fun ua => fst ua <> t) sched -> Mach.run s sched = Mach.Ok s' ->
+  Forall (fun ua => snd ua <> AWrite /\ snd ua <> AFree) sched /\ Mach.getth s' t = Mach.getth s t /\ Mach.live s' = true.
+Proof. exact no_interference_while_held. Qed.
+
 (* ---- thread-local side: the modelled functions only perform actions whose protocol precondition holds, whatever
    the shared memory returns: the buffer is written / reallocated only after an acquire load returned 1 while the
    thread held a reference; it is read only while holding one; the reference is given up last; dealloc only by the
@@ -128,6 +136,7 @@ Print Assumptions C04_protocol_safe_all_schedules.
 Print Assumptions C04_invariant.
 Print Assumptions C04_write_excludes_others.
 Print Assumptions C04_free_excludes_holders.
+Print Assumptions C04_no_interference_while_held.
 Print Assumptions C04_clone_respects_protocol.
 Print Assumptions C04_drop_respects_protocol.
 Print Assumptions C04_reserve_respects_protocol.
